@@ -582,3 +582,13 @@ pub fn digest(rec: &RunRecord) -> u64 {
     }
     crate::prng::fnv(&s)
 }
+
+
+/// Digest of what a caller can observe (results and rendered conflict text), not of the history.
+pub fn observable_digest(rec: &RunRecord) -> u64 {
+    let mut s = String::new();
+    for o in &rec.outcomes {
+        s.push_str(&format!("{o:?};"));
+    }
+    crate::prng::fnv(&s)
+}
